@@ -346,8 +346,49 @@ def _anc_until(node, stop):
         yield a
 
 
+def check_backsubstitution(ctx: Check, tree: Tree) -> None:
+    """Clause (d), structural part: the alignment-angle definitions that become kinematic
+    variables are back-substituted with the (completed) kinematic variables, so that only
+    four-momenta and parameters remain."""
+    fn = tree.func(FORMULATE)
+    rd = RD(fn.node)
+    loops = [n for n in walk_function(fn.node) if isinstance(n, ast.For) and "alignment_symbols" in unparse(n.iter)]
+    if len(loops) != 1:
+        raise AnalysisError(f"{FORMULATE}: expected one loop over the alignment symbols")
+    loop = loops[0]
+    stores = [n for n in loop.body if isinstance(n, ast.Assign) and isinstance(n.targets[0], ast.Subscript) and "alignment_symbols" in unparse(n.targets[0].value)]
+    model_call = next(c for c, callee in tree.calls_in(fn) if callee == MODEL)
+    kin = unparse(next(k.value for k in model_call.keywords if k.arg == "kinematic_variables"))
+    problems = []
+    if len(stores) != 1:
+        problems.append("the back-substituted definition is not stored back")
+    else:
+        st = stores[0]
+        idx = loop.body.index(st)
+        # the last definition of the stored value is `<expr>.xreplace(<kinematic variables>)` ...
+        val = st.value
+        defs = rd.reaching(val) if isinstance(val, ast.Name) else set()
+        ok_def = bool(defs) and all(d.value is not None and isinstance(d.value, ast.Call) and isinstance(d.value.func, ast.Attribute) and d.value.func.attr == "xreplace"
+                                    and d.value.args and unparse(d.value.args[0]) == kin for d in defs)
+        if not ok_def:
+            problems.append(f"the stored definition `{unparse(val)}` is not `<angle expression>.xreplace({kin})`")
+        # ... and it is computed after the loop that completes the kinematic variables
+        inner = [i for i, n in enumerate(loop.body) if isinstance(n, ast.For)]
+        def_positions = [loop.body.index(d.node) for d in defs if d.node in loop.body]
+        if inner and def_positions and min(def_positions) < max(inner):
+            problems.append("the substitution happens before the missing mass definitions are added")
+        if unparse(st.targets[0].slice) != unparse(loop.target.elts[0] if isinstance(loop.target, ast.Tuple) else loop.target):
+            problems.append("stored under another key than the iterated angle symbol")
+    merged = [n for n in walk_function(fn.node) if isinstance(n, ast.Call) and isinstance(n.func, ast.Attribute) and n.func.attr == "update" and unparse(n.func.value) == kin and n.args and "alignment_symbols" in unparse(n.args[0])]
+    if len(merged) != 1:
+        problems.append("the alignment definitions are not merged into the kinematic variables")
+    ctx.verdict(not problems, "R-BACKSUB", f"{FORMULATE}::alignment-backsubstitution", tree.loc(loop),
+                "formulate: every alignment angle definition is stored as <definition>.xreplace(kinematic_variables) after the missing mass variables were added, then merged into the kinematic variables", problems or None)
+
+
 def run(ctx: Check, tree: Tree) -> None:
     ctx.decided += [
+        "R-BACKSUB: alignment-angle definitions are back-substituted with the completed kinematic variables before they become kinematic variables (structural part of clause d)",
         "R-DOMAIN: some store into the amplitude table handed to HelicityModel is keyed from the summation domain of the intensity (or the consumer defaults leftover amplitude symbols)",
         "R-SYMPAIR: every symbol family that is constructed at several sites of helicity/kinematics agrees in kind and assumptions; single producers stay single; Wigner-angle suffixes come from get_helicity_suffix",
         "R-XSTORE: on every path through formulate a mass symbol stored as parameter is removed from / cannot be in the kinematic variables",
@@ -362,3 +403,4 @@ def run(ctx: Check, tree: Tree) -> None:
     check_sympairs(ctx, tree)
     check_xstore(ctx, tree)
     check_create(ctx, tree)
+    check_backsubstitution(ctx, tree)
